@@ -181,6 +181,9 @@ class PathResult:
                                                      len(self.conds), len(self.effects))
 
 
+LOOP_CONTINUE = ('sym', '$loop-continue')      # alternative of a summary: the iteration it stands for goes round again
+
+
 class Engine:
     def __init__(self, facts, inline_depth=4, max_paths=4000, summaries=None, inline_filter=None,
                  skip_tracing=True, loop_unroll=0, havoc_loops=False, unique_impls=False, havoc_mut_args=True, assume_asserts=True):
@@ -1126,6 +1129,12 @@ class Engine:
                     name = callee_body.path
             if callee_body is None and fv[0] == 'fn' and fn.get('defkind') == 'Closure':
                 callee_body = self.facts.body(fn['path'])
+        if callee_body is not None and callee_body.defkind == 'Closure' and len(args) == 2 and args[1][0] == 'agg' and args[1][1] == 'tuple' \
+                and (fn or {}).get('path') in ('std::ops::FnOnce::call_once', 'std::ops::FnMut::call_mut', 'std::ops::Fn::call') \
+                and callee_body.argc == 1 + len(args[1][3]):
+            # a closure whose value the path does not know (its variable was forgotten at a loop head) but whose body rustc
+            # resolved from the type: the "rust-call" convention passes the arguments as one tuple, the body takes them spread
+            args = [args[0]] + list(args[1][3])
         if callee_body is not None and len(st.frames) <= self.inline_depth \
                 and all(f.body is not callee_body for f in st.frames) \
                 and (self.inline_filter is None or self.inline_filter(callee_body)):
@@ -1209,6 +1218,10 @@ class Engine:
                     live.append((s2, v))
             for s2, v in live:
                 fr2 = s2.frames[-1]
+                if v == LOOP_CONTINUE:
+                    # one iteration of a loop that lives inside a std adaptor (`rx.iter().any(..)`) went round
+                    results.append(PathResult('backedge', s2, None, site))
+                    continue
                 self.write(s2, dest, v)
                 if target is None:
                     results.append(PathResult('panic', s2, None, site))
